@@ -107,4 +107,18 @@ CHECKS["C04"] = {
           "_check_parent_filter's composition (retrieve, new HierarchyFilter, apply) and set_temporary_feature are not under contract; "
           "the replay harness plays edit histories on real hierarchies (bounded, used only when a function leaves the subset).",
   "technique": "contract-based deductive verification: AST-generated VCs over quantified rank/select axioms with ghost functions and ghost cuts, discharged by z3"}
+CHECKS["C02"] = {
+  "text": "Proof that the generator yield_filtered_array_stacks yields chunks (1..chunk_size events each) whose concatenation is "
+          "data[indices] in order, for the sliced path and for the buffer-reusing event-by-event path (ghost output sequence, inductive "
+          "invariants, any chunk size and number of indices); that store_filtered_feature appends exactly data[where(filter)] for scalar, "
+          "image-like, contour and trace features and writes nothing for an empty selection; that Export.hdf5 (hdf5 and dict sources, "
+          "filtered/unfiltered, unequal feature lengths) writes for every requested feature exactly the selected events in order, only "
+          "the requested features, carries metadata sections/user entries/logs/tables, stores event count == number of exported events "
+          "and a new run identifier for filtered exports; that Export.tsv writes one column per requested scalar feature restricted to "
+          "the filter with '%.10e'.",
+  "note": "Trusted: RTDCWriter as in C01 (store_feature callee contract; __exit__ rectifies the count when events exist), rank/select "
+          "axioms incl. N-WHERE-EXT and N-WHERE-ALLTRUE, opaque event payloads, the export scenario (two features, one log, one table, "
+          "basins=False; basins are C07), file writes recorded in a ghost log, np.savetxt prints what it is given. Not under contract: "
+          "Export.fcs/avi, plugin/temporary non-scalar features, .tdms sources (represented by an index-only object in the generator unit).",
+  "technique": "contract-based deductive verification: AST-generated VCs with generator ghost output, loop invariants and callee contracts, discharged by z3"}
 NOT_APPLICABLE = {}
